@@ -2018,6 +2018,28 @@ func genMixed(w *bufio.Writer, r *rng, thorough bool, concurrent bool) {
 			emit(w, "bary.eval %s %s", polyDesc(r), r.frHex())
 		}
 	}
+	if concurrent {
+		// decoders, transcripts and proof parsing hammered side by side (shared pools / tables)
+		h := makeHonest(r, 2)
+		for i := 0; i < 25; i++ {
+			emit(w, "serde %s - %d -", hx(h.bytes), i%2)
+			emit(w, "tr %s %s", hexOrDash(r.bytes(3)), genTrHistory(r, pool, 10))
+			emit(w, "fr.dec lecanon %s", hx(be32rev(mustUnhex(r.frHex()))))
+			emit(w, "rdsc %s - 0 -", hx(be32rev(mustUnhex(r.frHex()))))
+		}
+		// more openings than CPUs, fewer MSM tasks than CPUs
+		emit(w, "mp %s %s", labelHex("c"), openingSet(r, 17, 1, 0))
+		emit(w, "mp %s %s", labelHex("c"), openingSet(r, 33, 5, 0))
+		for _, t := range []int{1, 2, 15, 17} {
+			n := 40
+			pts := msmPts(r, n)
+			ss := make([]string, n)
+			for j := range ss {
+				ss[j] = r.scalar()
+			}
+			emit(w, "msm %d 1 %s %s", t, joinWith(",", pts), joinWith(",", ss))
+		}
+	}
 	// many openings sharing one evaluation point with opening 0 (more than any CPU count)
 	emit(w, "mp %s %s", labelHex("c"), openingSet(r, 40, 0, 0))
 	// verification histories around the last domain point: z = 255, then others, alternating
@@ -2039,7 +2061,12 @@ func makeHonestAt(r *rng, zsIn []uint8) honest {
 	var Cs []*banderwagon.Element
 	var fs [][]fr.Element
 	for _, z := range zsIn {
-		f := parsePoly(polyDesc(r))
+		// non-zero evaluations at the opened points: constant or dense polynomials
+		desc := "k" + be32(add(r.frBig(), 1))
+		if r.coin(40) {
+			desc = fmt.Sprintf("r%d", r.intn(1<<20))
+		}
+		f := parsePoly(desc)
 		c := ic.Commit(f)
 		Cs = append(Cs, &c)
 		fs = append(fs, f)
